@@ -4,7 +4,9 @@
 // batches of events until nothing is pending (a watcher on a pipe stops each batch, so the schedule is the harness's: one
 // client action is handled completely before the next).  Observed after every action: the bytes that arrived at each
 // client, whether the server still holds a session for it (and whether the client saw its connection closed), the number
-// of sessions and registry entries, and -- once at the end -- the descriptors the process holds.
+// of sessions and registry entries, and -- once at the end -- the descriptors the process holds.  A fourth action: a bridged
+// client sends n patterned bytes while its partner does not read (the clients' receive buffers are small, so the data backs
+// up into the server); then the partner reads everything and a digest (count, position-weighted sum) is reported.
 #include "common.hpp"
 #include <arpa/inet.h>
 #include <atomic>
@@ -26,7 +28,7 @@
 using hv::In; using hv::Out; using hv::i64;
 namespace rl = ephemeralnet::relay;
 
-struct Client { int fd = -1; int server_fd = -1; bool peer_closed = false; };
+struct Client { int fd = -1; int server_fd = -1; bool peer_closed = false; std::vector<std::uint8_t> inbox; };
 
 static int count_fds() {
     int n = 0; DIR* d = ::opendir("/proc/self/fd"); if (!d) return -1;
@@ -64,6 +66,7 @@ int main() {
                 return ::poll(pf.data(), pf.size(), 0) > 0;
             };
             std::vector<Client> clients;
+            i64 bulk_client = -1; std::vector<std::uint8_t> bulk_digest;
             // everything the server has written has reached the client's end (the server's sockets use Nagle's algorithm: a
             // second small segment waits for the acknowledgement of the first; the clients acknowledge at once)
             auto in_flight = [&]() {
@@ -71,13 +74,29 @@ int main() {
                 return false;
             };
             auto quickack = [&]() { for (auto& c : clients) if (c.fd >= 0) { int one = 1; ::setsockopt(c.fd, IPPROTO_TCP, TCP_QUICKACK, &one, sizeof one); } };
+            // the clients read what has arrived (their receive buffers are small: a client that did not read would stall the server)
+            auto drain_all = [&]() {
+                bool any = false;
+                for (auto& c : clients) {
+                    if (c.fd < 0) continue;
+                    std::uint8_t buf[65536];
+                    for (;;) {
+                        const ssize_t n = ::recv(c.fd, buf, sizeof buf, MSG_DONTWAIT);
+                        if (n > 0) { c.inbox.insert(c.inbox.end(), buf, buf + n); any = true; continue; }
+                        if (n == 0 || (n < 0 && errno != EAGAIN && errno != EWOULDBLOCK && errno != EINTR)) c.peer_closed = true;
+                        break;
+                    }
+                }
+                return any;
+            };
             auto settle = [&]() {
-                for (int round = 0; round < 2000; ++round) {
+                for (int round = 0; round < 4000; ++round) {
                     quickack();
+                    if (drain_all()) continue;
                     bool any = false;
                     for (int spin = 0; spin < 3 && !any; ++spin) { any = pending(); if (!any) ::usleep(200); }
                     if (!any) {
-                        if (!in_flight()) return;
+                        if (!in_flight()) { drain_all(); return; }
                         ::usleep(500);
                         continue;
                     }
@@ -91,10 +110,14 @@ int main() {
                     Client c{};
                     c.fd = ::socket(AF_INET, SOCK_STREAM, 0);
                     int one = 1; ::setsockopt(c.fd, IPPROTO_TCP, TCP_NODELAY, &one, sizeof one);
+                    int rcv = 8192; ::setsockopt(c.fd, SOL_SOCKET, SO_RCVBUF, &rcv, sizeof rcv);      // a small window: a stalled reader backs up into the server
                     if (::connect(c.fd, reinterpret_cast<sockaddr*>(&addr), sizeof addr) != 0) { out.put(-10); return; }
                     std::vector<int> before; for (const auto& [fd, s] : server.sessions_) before.push_back(fd);
                     settle();
                     for (const auto& [fd, s] : server.sessions_) if (std::find(before.begin(), before.end(), fd) == before.end()) c.server_fd = fd;
+                    // the operating system's send buffer for this connection is small too (an OS setting, not the server's): what a
+                    // stalled reader does not take stays in the server's own write buffer
+                    if (c.server_fd >= 0) { int snd = 8192; ::setsockopt(c.server_fd, SOL_SOCKET, SO_SNDBUF, &snd, sizeof snd); }
                     clients.push_back(c);
                 } else if (code == 1) {
                     const i64 i = in.next(); const auto data = in.bytes();
@@ -107,6 +130,56 @@ int main() {
                         }
                     }
                     settle();
+                } else if (code == 3) {
+                    // a bridged client sends n patterned bytes while its partner does not read; then the partner reads everything
+                    const i64 i = in.next(), n = in.next(), seed = in.next();
+                    bulk_client = -1;
+                    if (i >= 0 && i < static_cast<i64>(clients.size()) && clients[static_cast<std::size_t>(i)].fd >= 0 && clients[static_cast<std::size_t>(i)].server_fd >= 0) {
+                        const auto it = server.sessions_.find(clients[static_cast<std::size_t>(i)].server_fd);
+                        if (it != server.sessions_.end() && !it->second->closing && it->second->state == rl::RelayServer::SessionState::Bridged) {
+                            const auto partner = it->second->partner.lock();
+                            for (std::size_t c = 0; partner && c < clients.size(); ++c) if (clients[c].server_fd == partner->fd && clients[c].fd >= 0) bulk_client = static_cast<i64>(c);
+                        }
+                    }
+                    if (bulk_client >= 0) {
+                        const int sfd = clients[static_cast<std::size_t>(i)].fd, rfd = clients[static_cast<std::size_t>(bulk_client)].fd;
+                        std::uint64_t count = 0, sum = 0;
+                        auto drain = [&]() {
+                            std::uint8_t buf[65536]; bool any = false;
+                            for (;;) {
+                                const ssize_t k = ::recv(rfd, buf, sizeof buf, MSG_DONTWAIT);
+                                if (k <= 0) break;
+                                any = true;
+                                for (ssize_t x = 0; x < k; ++x) { ++count; sum = (sum + count * buf[x]) & 0xFFFFFFFFull; }
+                            }
+                            return any;
+                        };
+                        auto pump = [&]() { if (!pending()) return false; const char one = 1; (void)!::write(sp[1], &one, 1); loop.run(); return true; };
+                        std::vector<std::uint8_t> chunk(65536);
+                        i64 sent = 0; int stuck = 0; bool reading = false; std::size_t peak = 0;
+                        while (sent < n && stuck < 400) {
+                            const i64 want = std::min<i64>(n - sent, static_cast<i64>(chunk.size()));
+                            for (i64 x = 0; x < want; ++x) chunk[static_cast<std::size_t>(x)] = static_cast<std::uint8_t>(128 + (seed + 7 * (sent + x)) % 128);
+                            const ssize_t k = ::send(sfd, chunk.data(), static_cast<std::size_t>(want), MSG_DONTWAIT | MSG_NOSIGNAL);
+                            if (k > 0) { sent += k; stuck = 0; }
+                            else { ++stuck; if (stuck > 200) reading = true; }      // the sender cannot make progress: the reader wakes up
+                            bool moved = pump();
+                            if (std::getenv("RELAY_DEBUG")) { const auto it2 = server.sessions_.find(clients[static_cast<std::size_t>(bulk_client)].server_fd); if (it2 != server.sessions_.end()) peak = std::max(peak, it2->second->write_buffer.size()); }
+                            if (reading) moved = drain() || moved;
+                            if (k <= 0 && !moved) ::usleep(500);
+                        }
+                        if (std::getenv("RELAY_DEBUG")) std::fprintf(stderr, "bulk: sent %lld of %lld, peak write_buffer %zu, reading %d\n", sent, n, peak, reading ? 1 : 0);
+                        // the partner reads everything
+                        for (int quiet = 0; quiet < 60; ) {
+                            quickack();
+                            bool moved = pump();
+                            moved = drain() || moved;
+                            if (moved || in_flight()) { if (moved) quiet = 0; else { ++quiet; ::usleep(1000); } } else { ++quiet; ::usleep(200); }
+                        }
+                        bulk_digest = {static_cast<std::uint8_t>(count >> 24), static_cast<std::uint8_t>(count >> 16), static_cast<std::uint8_t>(count >> 8), static_cast<std::uint8_t>(count),
+                                       static_cast<std::uint8_t>(sum >> 24), static_cast<std::uint8_t>(sum >> 16), static_cast<std::uint8_t>(sum >> 8), static_cast<std::uint8_t>(sum)};
+                    }
+                    settle();
                 } else {
                     const i64 i = in.next();
                     if (i >= 0 && i < static_cast<i64>(clients.size()) && clients[static_cast<std::size_t>(i)].fd >= 0) {
@@ -117,15 +190,8 @@ int main() {
                 out.put(static_cast<i64>(clients.size()));
                 for (auto& c : clients) {
                     std::vector<std::uint8_t> got;
-                    if (c.fd >= 0) {
-                        std::uint8_t buf[65536];
-                        for (;;) {
-                            const ssize_t n = ::recv(c.fd, buf, sizeof buf, MSG_DONTWAIT);
-                            if (n > 0) { got.insert(got.end(), buf, buf + n); continue; }
-                            if (n == 0 || (n < 0 && errno != EAGAIN && errno != EWOULDBLOCK && errno != EINTR)) c.peer_closed = true;
-                            break;
-                        }
-                    }
+                    if (bulk_client >= 0 && &c == &clients[static_cast<std::size_t>(bulk_client)]) got = bulk_digest;     // then whatever else arrived
+                    got.insert(got.end(), c.inbox.begin(), c.inbox.end()); c.inbox.clear();
                     out.bytes(got);
                     // the server still holds this client's session (its descriptor may have been reused by a later client)
                     bool open = false;
@@ -139,6 +205,7 @@ int main() {
                 out.put(static_cast<i64>(server.sessions_.size()));
                 out.put(static_cast<i64>(server.registered_.size()));
                 out.put(0);
+                bulk_client = -1; bulk_digest.clear();
             }
             // every client leaves; then the server must hold nothing
             for (auto& c : clients) if (c.fd >= 0) { ::close(c.fd); c.fd = -1; }
